@@ -931,6 +931,7 @@ func main() {
 	writeGuard(t, *out)
 	writeScanner(t, *out)
 	writeChunk(t, *out)
+	writeStats(t, *out)
 	if err := os.MkdirAll(*out, 0o755); err != nil {
 		fmt.Fprintln(os.Stderr, err)
 		os.Exit(2)
